@@ -244,6 +244,15 @@ class Real:
             r = (inst.hz(a["r"][0]), inst.hz(a["r"][1]))
             import warnings
             import logging
+            kw_ = dict(n=a["n"][0] / a["n"][1], max_iterations=a["mi"], distribution_fn=inst.dist_f, distribution_mc=inst.dist_a,
+                       search_range_in_hz=r, find_peaks_kwargs={} if a["kw"] else None)
+            if not getattr(self, "capture_log", False):
+                # the library's logger is left exactly as a user's process has it (default level): the DEBUG trace is only
+                # switched on by the replayers that bind it (C06), so that both logging configurations are exercised
+                self.fdwra_log = []
+                with warnings.catch_warnings():
+                    warnings.simplefilter("ignore")
+                    return self.h.frequency_domain_window_rejection(obj, **kw_)
             # per-iteration DEBUG trace of the algorithm (masks, mean / std of fn, mean-curve peak before and after)
             records = []
 
@@ -258,10 +267,7 @@ class Real:
             try:
               with warnings.catch_warnings():
                 warnings.simplefilter("ignore")
-                return self.h.frequency_domain_window_rejection(
-                    obj, n=a["n"][0] / a["n"][1], max_iterations=a["mi"],
-                    distribution_fn=inst.dist_f, distribution_mc=inst.dist_a,
-                    search_range_in_hz=r, find_peaks_kwargs={} if a["kw"] else None)
+                return self.h.frequency_domain_window_rejection(obj, **kw_)
             finally:
                 lg.removeHandler(hd)
                 lg.setLevel(old)
@@ -356,6 +362,7 @@ class Replayer:
         import time
         t0 = time.time()
         real = Real(self.h, inst, self.alphabet, self.na, self.nw)
+        real.capture_log = self.fdwra_hook is not None
         for gi, ck in enumerate(self.graph.groups()):
             if max_groups is not None and gi >= max_groups:
                 break
